@@ -252,7 +252,20 @@ def getValue (c : Chr) (fromConn : Bool) (gf : Option GVal) : Chr × Outcome × 
     | .panic => (r.1, .panic, .nil)   -- nothing is returned
 
 /-- `Int.GetValue`, `Float.GetValue`, `String.GetValue`, `Bool.GetValue`: `c.Value.(T)` -/
-def typedGet (c : Chr) (t : GType) : Outcome := if c.value.hasType t then .ok else .panic
+def typedGet (_c : Chr) (_t : GType) : Outcome := .ok      -- `value, _ := c.Value.(T)` (F37 repair: was a bare assertion)
+
+/-- what the typed getter returns: the stored value if it has the getter's type, otherwise the zero value of that type
+    (in particular for a characteristic that stores nothing, e.g. a write-only one) -/
+def typedGetVal (c : Chr) (t : GType) : GVal :=
+  if c.value.hasType t then c.value else
+  match t with
+  | .bool => .bool false
+  | .int => .int 0
+  | .float64 => .float (.fin false 0 0)
+  | .string => .str ""
+
+/-- the getter before the F37 repair (`c.Value.(T)`) -/
+def typedGetOld (c : Chr) (t : GType) : Outcome := if c.value.hasType t then .ok else .panic
 
 /-- `json.Marshal` succeeds on the value: no NaN / ±Inf -/
 def encodable : GVal → Bool
